@@ -664,6 +664,13 @@ pub fn enumerate() -> Vec<Case> {
             }
         }
         v.push((31, 40));
+        // counts beyond 2^53, where usize -> f64 conversion rounds: the domain rules are integer rules
+        for base in [(1u64 << 53), (1u64 << 53) + 2, (1u64 << 53) + 3, (1u64 << 60) + 1024, (1u64 << 62) + 513, u64::MAX - 3] {
+            for d in [0u64, 1, 2, 3] {
+                v.push((base, base - d));
+                v.push((base, d));
+            }
+        }
         v.push((u64::MAX, 5));
         v.push((5, u64::MAX));
         v
